@@ -21,9 +21,13 @@ RE_FAMILY = [
 IGNORES = {
     'tok': [{'kind': 'str', 'value': ' ', 'flags': ''}],
     'ovl': [{'kind': 'str', 'value': ' ', 'flags': ''}, {'kind': 'str', 'value': '_', 'flags': ''},
-            {'kind': 'str', 'value': 'a', 'flags': ''}, {'kind': 'str', 'value': 'b ', 'flags': ''}, {'kind': 'str', 'value': 'c', 'flags': ''}],
+            {'kind': 'str', 'value': 'a', 'flags': ''}, {'kind': 'str', 'value': 'b ', 'flags': ''}, {'kind': 'str', 'value': 'c', 'flags': ''},
+            # pairs where one ignored string is a proper prefix of another one (both match at the same position, the longer
+            # one is not reachable by chaining the shorter): '_' / '_a', ' ' / ' b', 'c' / 'ca'
+            {'kind': 'str', 'value': '_a', 'flags': ''}, {'kind': 'str', 'value': ' b', 'flags': ''}, {'kind': 'str', 'value': 'ca', 'flags': ''}],
     're': [{'kind': 'str', 'value': ' ', 'flags': ''}, {'kind': 're', 'value': ' +', 'flags': ''},
-           {'kind': 're', 'value': '[ _]', 'flags': ''}, {'kind': 're', 'value': '_+|c', 'flags': ''}],
+           {'kind': 're', 'value': '[ _]', 'flags': ''}, {'kind': 're', 'value': '_+|c', 'flags': ''},
+           {'kind': 'str', 'value': '_a', 'flags': ''}, {'kind': 'str', 'value': ' b', 'flags': ''}],
 }
 
 
@@ -85,8 +89,9 @@ def grammars(draw, o):
     ignore = []
     if o.ignore == 'always' or (o.ignore and draw(st.integers(0, 9)) < 4):
         cands = [p for p in IGNORES[o.ignore_kinds or o.terms] if all(p['value'] != t['pat']['value'] for t in terms)]
-        k = draw(st.integers(1, 2)) if o.terms != 'tok' else 1
+        k = draw(st.integers(1, 3)) if o.terms != 'tok' else 1
         chosen = draw(st.lists(st.sampled_from(cands), min_size=1, max_size=k, unique_by=lambda p: p['value']))
+        chosen = list(draw(st.permutations(chosen)))      # declaration order of the %ignore statements matters to a scanner
         for n, p in enumerate(chosen):
             ex = {' +': [' ', '  '], '[ _]': [' ', '_'], '_+|c': ['_', '__', 'c']}.get(p['value'], [p['value']])
             terms.append({'name': 'IG%d' % n, 'prio': None, 'pat': p, 'ex': ex})
